@@ -7,6 +7,7 @@ import (
 	"encoding/hex"
 	"encoding/json"
 	"fmt"
+	"io"
 	"os"
 	"path/filepath"
 	"sort"
@@ -14,6 +15,7 @@ import (
 	"sync"
 	"time"
 
+	"github.com/compose-spec/compose-go/v2/dotenv"
 	"github.com/compose-spec/compose-go/v2/loader"
 	"github.com/compose-spec/compose-go/v2/types"
 
@@ -245,3 +247,20 @@ var _ = bytes.NewBuffer
 func init() { core.AtExit(CleanScratch) }
 
 func nowNano() int64 { return time.Now().UnixNano() }
+
+func init() {
+	// an env_file `format` the corpus can use: KEY=VALUE lines, no quoting, no interpolation
+	dotenv.RegisterFormat("raw", func(r io.Reader, filename string, lookup func(key string) (string, bool)) (map[string]string, error) {
+		b, err := io.ReadAll(r)
+		if err != nil {
+			return nil, err
+		}
+		out := map[string]string{}
+		for _, l := range strings.Split(string(b), "\n") {
+			if k, v, ok := strings.Cut(l, "="); ok {
+				out[k] = v
+			}
+		}
+		return out, nil
+	})
+}
